@@ -525,9 +525,15 @@ func (c *PollClient) absorb(ps []Pkt) {
 }
 
 // StartPoll issues a poll request (does not check for an outstanding one).
-func (c *PollClient) StartPoll() *Exchange {
+func (c *PollClient) StartPoll() *Exchange { return c.StartPollMod(nil) }
+
+// StartPollMod: a poll request whose carrier-level behaviour is modified (slow connection, pre-set headers ...)
+func (c *PollClient) StartPollMod(mod func(*ReqSpec)) *Exchange {
 	spec := NewReq("GET", c.W.Path, c.query(true))
 	spec.Header = c.hdr()
+	if mod != nil {
+		mod(&spec)
+	}
 	e := Do(c.W.Srv, spec)
 	c.mu.Lock()
 	c.Poll = e
@@ -544,6 +550,12 @@ func (c *PollClient) Pump() []Pkt {
 	}
 	s := c.Poll.Snap()
 	if !s.Responded {
+		if s.Returned && !s.Aborted && s.Panic == nil && !s.Hijacked {
+			// the handler returned without writing: net/http completed the exchange as an empty 200 (and whatever
+			// is written to the ResponseWriter from now on reaches nobody)
+			c.Poll = nil
+			c.Errs = append(c.Errs, fmt.Sprintf("poll completed as an empty 200: its handler returned without having written a response (%d writes came after it returned and reached nobody)", s.WritesAfterReturn))
+		}
 		return nil
 	}
 	c.Poll = nil
